@@ -141,8 +141,8 @@ def lua_level(ctx, dist):
 
 
 def gen_programs(ctx, nprog, per, ntrigger, salt="c19-e2e"):
-    """(cases, source, class) -- clean programs hold only operations outside the known-defect classes; every
-    trigger program holds ONE case of a known-defect class"""
+    """(cases, source, class) -- every trigger program holds ONE case of a class that once was a defect (both
+    classes are repaired in /repo; only classes listed as open in known_findings.jsonl excuse a failure)"""
     r = vlib.rng(ctx.seed, salt)
     progs = []
     depth = sizes(ctx)["depth"]
@@ -150,7 +150,7 @@ def gen_programs(ctx, nprog, per, ntrigger, salt="c19-e2e"):
         cs = []
         while len(cs) < per:
             c = H.gen_op_case(r, r.randint(0, depth)) if r.random() < 0.8 else H.gen_fn_case(r)
-            if classify(c) or not H.writable(c):
+            if not H.writable(c):
                 continue
             if c.cls == "eq" and r.random() < 0.3:
                 c.blob_order = "rev"
